@@ -307,6 +307,14 @@ func tryReplay(o *Obligation, _ map[string]string, repo, workdir string) *Replay
 	}
 	model := o.modelFor(10*time.Second, workdir)
 	if model == nil {
+		// no model (quantified context): an entry-level driver written for this function may still replay the
+		// scenario the obligation is about; it must demonstrate the misbehaviour on the real code to count
+		if rr := customReplay(o, map[string]string{}, repo, workdir); rr != nil {
+			if !rr.Reproduced {
+				rr.Why = "no witness values obtained from the solver; the function's scenario driver did not misbehave"
+			}
+			return rr
+		}
 		return &ReplayResult{Kind: "none", Why: "no witness values obtained from the solver"}
 	}
 	fn := c.fn
